@@ -102,6 +102,7 @@ SPEC = TreeSpec(
     ),
     profile=PYTHON_CANONICAL,
     check=check,
+    size_sweep=True,
     nontrivial=nontrivial,
     sample_of=sample_of,
     assumptions=(
